@@ -35,7 +35,7 @@ class mesh(np.ndarray):
         """
         if isinstance(init, mesh):
             obj = np.ndarray.__new__(cls, shape=init.shape, dtype=init.dtype, **kwargs)
-            obj[:] = init[:]
+            obj[...] = init
         elif (
             isinstance(init, tuple)
             and (init[1] is None or isinstance(init[1], MPI.Intracomm))
